@@ -3,7 +3,8 @@
 (* The rule tables of casket's small response-shaping directives           *)
 (* (extension of C12; Middleware.tla treats them as opaque wrappers):      *)
 (*                                                                         *)
-(*   index  request_id  ext  header  status  mime  pprof  expvar  browse   *)
+(*   index  request_id  ext  header  errors  status  mime  pprof  expvar    *)
+(*   browse                                                                *)
 (*                                                                         *)
 (* in the order httpserver/plugin.go chains them, in front of a scripted   *)
 (* innermost handler ("inner", the harness's test-only directive) and the  *)
@@ -15,7 +16,8 @@
 (*   ParseIndex .. ParseBrowse   one line of one directive's setup         *)
 (*                            (index/index.go, requestid/setup.go,         *)
 (*                            extensions/setup.go, header/setup.go,        *)
-(*                            status/setup.go, mime/setup.go,              *)
+(*                            errors/setup.go, status/setup.go,            *)
+(*                            mime/setup.go, browse/setup.go,              *)
 (*                            pprof/setup.go, expvar/setup.go)             *)
 (*   NextDirective           executeDirectives moves on / ends             *)
 (*   StartRequest            Server.ServeHTTP hands the request to the     *)
@@ -35,7 +37,11 @@
 (*                            one index page tried, http.ServeContent      *)
 (*   Commit                  the first WriteHeader reaches header's        *)
 (*                            responseWriterWrapper: deferred deletions    *)
-(*   Fallback                a status >= 400 came back unwritten:          *)
+(*   ErrorsPage              a status >= 400 came back unwritten and the   *)
+(*                            site has `errors`: errors.ErrorHandler       *)
+(*                            writes the error page - it sits INSIDE       *)
+(*                            header, so through the wrapper               *)
+(*   Fallback                the same without `errors`:                    *)
 (*                            DefaultErrorFunc (log's ErrorFunc or         *)
 (*                            Server.ServeHTTP) writes on the ORIGINAL     *)
 (*                            writer, outside header's wrapper             *)
@@ -191,6 +197,8 @@ Pool == [
   vB |-> ExpvarLine(<<"expvar /a/b">>, TRUE, <<"a","b">>),
   pA |-> PprofLine(<<"pprof">>),
   bA |-> BrowseLine(<<"browse /a">>, <<"a">>),
+  \* ---- errors (no page, default log): only its place in the chain matters here - between header and status
+  xA |-> [d |-> "errors", text |-> <<"errors">>, bad |-> ""],
   \* ---- lines a setup must refuse by themselves (arity / form)
   hX |-> Bad("header", <<"header">>, "no pattern"),
   hY |-> Bad("header", <<"header / {", "X-A one two", "}">>, "two values"),
@@ -208,14 +216,14 @@ Pool == [
   pX |-> Bad("pprof", <<"pprof on">>, "argument") ]
 
 IdSeq == << "hA","hB","hC","hD","hE","hF","hG","hH","mA","mB","mC","mD","mE","mF","sA","sB","sC","sD","rA","rB","rC",
-            "iA","iB","eA","eB","vA","vB","pA","bA","hX","hY","mX","mY","sX","sY","sZ","sV","sW","rX","iX","eX","vX","pX" >>
+            "iA","iB","eA","eB","vA","vB","pA","bA","xA","hX","hY","mX","mY","sX","sY","sZ","sV","sW","rX","iX","eX","vX","pX" >>
 Ids     == {IdSeq[q] : q \in 1..Len(IdSeq)}
 GoodIds == {id \in Ids : Pool[id].bad = ""}
 BadIds  == Ids \ GoodIds
 IdNum(id) == CHOOSE q \in 1..Len(IdSeq) : IdSeq[q] = id
 
 \* the order in which executeDirectives runs the setups = the order of the chain
-DirOrder == << "index", "request_id", "ext", "header", "status", "mime", "pprof", "expvar", "browse" >>
+DirOrder == << "index", "request_id", "ext", "header", "errors", "status", "mime", "pprof", "expvar", "browse" >>
 Directives == {DirOrder[q] : q \in 1..Len(DirOrder)}
 DefaultIndex == << "index.html", "index.htm", "index.txt", "default.html", "default.htm", "default.txt" >>
 MimeExts == {".txt", ".bin", ".*"}
@@ -255,7 +263,7 @@ vars == <<site, pc, sd, sl, cfg, x, nfresh, cur, rid, hdr, dfr, i, j, sel, sf, a
 
 NoSite == [d \in Directives |-> <<>>]
 Cfg0 == [index |-> DefaultIndex, ridOn |-> FALSE, ridName |-> "", exts |-> <<>>,
-         hrules |-> <<>>, srules |-> <<>>, mimeOn |-> FALSE, mime |-> [e \in MimeExts |-> ""], mimeDefaults |-> FALSE,
+         hrules |-> <<>>, errorsOn |-> FALSE, srules |-> <<>>, mimeOn |-> FALSE, mime |-> [e \in MimeExts |-> ""], mimeDefaults |-> FALSE,
          pprofOn |-> FALSE, expvarOn |-> FALSE, expvarRes |-> <<>>, browseOn |-> FALSE, browseBase |-> <<>>]
 NoAns == [status |-> 0, kind |-> "none", file |-> "", loc |-> "", via |-> "none", body |-> TRUE]
 NoFin == [status |-> 0]
@@ -280,6 +288,7 @@ Pinned == { <<"eB","hD">>,      \* {rewrite_path} after an ext rewrite
             <<"rB","hG">>,      \* the id in the header placeholder, the handler and the log
             <<"hA","hC">>, <<"hC","hA">>,   \* set then delete / delete then set
             <<"hB","hH">>, <<"hH","hB">>,   \* two lines with one pattern are one rule
+            <<"hD","xA">>,      \* with `errors` the error page goes through header's wrapper: deletions hold
             <<"hF","mA">>,      \* a deleted Content-Type stays deleted when mime sets it later
             <<"hE","mB">>,      \* mime replaces what header set
             <<"sC","sA">>,      \* longest base wins, not the first
@@ -378,6 +387,10 @@ ParseBrowse == /\ AtLine("browse")
                /\ IF cfg.browseOn /\ cfg.browseBase = Line.base THEN Refuse
                   ELSE Accept([cfg EXCEPT !.browseOn = TRUE, !.browseBase = Line.base])
 
+\* errors/setup.go: nothing to refuse in a bare `errors`
+ParseErrors == /\ AtLine("errors")
+               /\ Accept([cfg EXCEPT !.errorsOn = TRUE])
+
 NextDirective == /\ pc = "setup" /\ sl > Len(CurLines)
                  /\ IF sd < Len(DirOrder) THEN sd' = sd + 1 /\ sl' = 1 /\ pc' = pc
                                           ELSE sd' = 0 /\ sl' = 0 /\ pc' = "ready"
@@ -387,7 +400,8 @@ NextDirective == /\ pc = "setup" /\ sl > Len(CurLines)
 (* 5. serving the battery *)
 
 \* the middleware of the site, outermost first (a directive that was not written adds nothing);
-\* the harness adds `log` (between request_id and ext, no step of its own here) exactly when request_id is on
+\* the harness adds `log` (between request_id and ext, no step of its own here) exactly when request_id is on;
+\* `errors` (between header and status) has no step on the way in either: it acts when a status comes back (ErrorsPage)
 Opt(b, s) == IF b THEN <<s>> ELSE <<>>
 Chain == Opt(cfg.ridOn, "rid") \o Opt(cfg.exts # <<>>, "ext") \o Opt(cfg.hrules # <<>>, "header") \o Opt(cfg.srules # <<>>, "status")
          \o Opt(cfg.mimeOn, "mime") \o Opt(cfg.pprofOn, "pprof") \o Opt(cfg.expvarOn, "expvar") \o Opt(cfg.browseOn, "browse") \o <<"inner", "fs">>
@@ -561,7 +575,14 @@ Commit == /\ pc = "commit"
           /\ UNCHANGED <<site, sd, sl, cfg, x, nfresh, cur, rid, dfr, i, j, sel, sf, g, fin, rids>>
 \* a status >= 400 travelled back up unwritten: log's ErrorFunc / Server.ServeHTTP call DefaultErrorFunc on the
 \* writer THEY hold - header's wrapper never sees this WriteHeader, its deferred deletions are not run
-Fallback == /\ pc = "fallback"
+\* errors.ErrorHandler.ServeHTTP: status >= 400 from below -> errorPage -> DefaultErrorFunc(w, ...) with the writer it was
+\* given, i.e. header's wrapper when header is configured: the deferred deletions ARE run for this answer
+ErrorsPage == /\ pc = "fallback" /\ cfg.errorsOn
+              /\ hdr' = [hdr EXCEPT ![CT] = <<TextPlain>>, ![XCTO] = <<"nosniff">>]
+              /\ g' = [g EXCEPT !.down = Down(Down(@, "set", CT, TextPlain), "set", XCTO, "nosniff")]
+              /\ pc' = "commit"
+              /\ UNCHANGED <<site, sd, sl, cfg, x, nfresh, cur, rid, dfr, i, j, sel, sf, ans, fin, rids>>
+Fallback == /\ pc = "fallback" /\ ~cfg.errorsOn
             /\ hdr' = [hdr EXCEPT ![CT] = <<TextPlain>>, ![XCTO] = <<"nosniff">>]
             /\ ans' = [ans EXCEPT !.via = "outside"] /\ pc' = "net"
             /\ UNCHANGED <<site, sd, sl, cfg, x, nfresh, cur, rid, dfr, i, j, sel, sf, g, fin, rids>>
@@ -608,11 +629,11 @@ Net == /\ pc = "net"
 Next == \/ \E id \in GoodIds : AddLine(id)
         \/ \E id \in BadIds : AddBad(id)
         \/ StartSetup
-        \/ ParseIndex \/ ParseRid \/ ParseExt \/ ParseHeader \/ ParseStatus \/ ParseMime \/ ParsePprof \/ ParseExpvar \/ ParseBrowse
+        \/ ParseIndex \/ ParseRid \/ ParseExt \/ ParseHeader \/ ParseErrors \/ ParseStatus \/ ParseMime \/ ParsePprof \/ ParseExpvar \/ ParseBrowse
         \/ NextDirective
         \/ StartRequest \/ RequestID \/ ExtBegin \/ ExtTry \/ HeaderRule \/ HeaderOp \/ HeaderNext
         \/ StatusSelect \/ StatusAnswer \/ MimeSet \/ Pprof \/ Expvar \/ Browse \/ Inner
-        \/ FsOpen \/ FsIndex \/ FsServe \/ Commit \/ Fallback \/ Net \/ Finish
+        \/ FsOpen \/ FsIndex \/ FsServe \/ Commit \/ ErrorsPage \/ Fallback \/ Net \/ Finish
 Spec == Init /\ [][Next]_vars
 
 -----------------------------------------------------------------------------
@@ -647,7 +668,7 @@ Flatten(d, f) == LET RECURSIVE F(_) F(q) == IF q > Len(site[d]) THEN <<>> ELSE P
 SetupInv == pc = "ready" =>
     /\ cfg.index = (IF site["index"] = <<>> THEN DefaultIndex ELSE Flatten("index", "names"))
     /\ cfg.exts = Flatten("ext", "exts")
-    /\ cfg.ridOn = (site["request_id"] # <<>>)
+    /\ cfg.ridOn = (site["request_id"] # <<>>) /\ cfg.errorsOn = (site["errors"] # <<>>)
     /\ [q \in 1..Len(cfg.srules) |-> cfg.srules[q].base] = StatusBases /\ [q \in 1..Len(cfg.srules) |-> cfg.srules[q].code] = StatusCodes
     /\ \A e \in MimeExts : cfg.mime[e] = (IF \E q \in 1..Len(MimeEntries) : MimeEntries[q].e = e
                                           THEN MimeEntries[CHOOSE q \in 1..Len(MimeEntries) : MimeEntries[q].e = e].t ELSE "")
@@ -698,7 +719,7 @@ StatusRuleAnswersExactlyItsPaths ==
                               /\ \A q \in StatusMatches : Len(BaseStr(StatusBases[q])) <= Len(BaseStr(StatusBases[g.sel]))
                               /\ Fin.status = StatusCodes[g.sel] /\ ~Fin.reached
                               /\ Fin.kind = (IF StatusCodes[g.sel] < 400 THEN "status" ELSE "error")
-                              /\ Fin.via = (IF StatusCodes[g.sel] < 400 THEN "wrapper" ELSE "outside")
+                              /\ Fin.via = (IF StatusCodes[g.sel] < 400 \/ site["errors"] # <<>> THEN "wrapper" ELSE "outside")
 \* ---- RequestIDStableWithinRequest: one id per request wherever it is read; the client's id (normalised) iff a header name
 \* is configured and the header holds a UUID; fresh ids differ from each other and from the client's
 HdrRidOK(o) == \A q \in 1..Len(o.hdr["X-Rid"]) : "X-Rid" \in o.free \/ o.hdr["X-Rid"][q] = o.rid
@@ -737,7 +758,7 @@ FixedPaths == AtDone => /\ Fin.kind = "pprof" => PathMatches(cur, PprofBase) /\ 
 \* ---- action properties: the site does not change while it serves, every loop moves forward by one, every request ends
 StageNo(p) == CASE p = "rid" -> 1 [] p = "ext" -> 2 [] p = "exttry" -> 3 [] p = "header" -> 4 [] p = "status" -> 5 [] p = "mime" -> 6
                 [] p = "pprof" -> 7 [] p = "expvar" -> 8 [] p = "browse" -> 9 [] p = "inner" -> 10 [] p = "fs" -> 11 [] p = "fsindex" -> 12
-                [] p = "fsserve" -> 13 [] p = "commit" -> 14 [] p = "fallback" -> 14 [] p = "net" -> 15 [] p = "done" -> 16 [] OTHER -> 0
+                [] p = "fsserve" -> 13 [] p = "fallback" -> 14 [] p = "commit" -> 15 [] p = "net" -> 16 [] p = "done" -> 17 [] OTHER -> 0
 Rank == (NReq - x) * 100000 + (20 - StageNo(pc)) * 1000 - (i * 20 + j)
 Progress == [][Serving => (pc' # "end" => Rank' < Rank) /\ UNCHANGED <<site, cfg>>]_vars
 LoopsInOrder == [][/\ (pc = "exttry" /\ pc' = "exttry" => i' = i + 1)
